@@ -331,6 +331,8 @@ class Run(RunBase):
                 la = net.find_lanelet_by_id(p["lanelet"])
                 if la is not None:
                     out.append(point_on(la, p["seg"], p["t"], p.get("off", 0.0)))
+        if out:
+            out.extend(np.array(g, dtype=float) for g in getattr(self, "ghosts", []))  # where removed lanelets lay
         return out
 
     def _check_lookup_pos(self, pts):
@@ -708,7 +710,29 @@ class Run(RunBase):
         return r
 
     def _op_remove_lanelet(self, op):
-        if op["level"] == "scenario":
+        la0 = self.sc.lanelet_network.find_lanelet_by_id(op["id"])
+        if la0 is not None:
+            c = la0.center_vertices
+            self.ghosts = (getattr(self, "ghosts", []) + [[float(x) for x in (c[0] + c[1]) / 2]])[-6:]
+        if op["level"] == "scenario" and op.get("intruder"):
+            # a list removal that fails half-way: the lanelet, then one the scenario does not know
+            la = self.sc.lanelet_network.find_lanelet_by_id(op["id"])
+            other = build.build_lanelet({"id": 9000, "left": [[900, 1], [910, 1]], "center": [[900, 0], [910, 0]],
+                                         "right": [[900, -1], [910, -1]]})
+            lst = [la, other] if op["intruder"] in ("after", "middle") else [other, la]
+            if op["intruder"] == "middle":
+                # ... and a further lanelet of the scenario behind it, which the failing call never reaches
+                more = [x for x in self.sc.lanelet_network.lanelets
+                        if x.lanelet_id in self.via_scenario and x.lanelet_id != op["id"]]
+                lst.append(more[0] if more else build.build_lanelet(
+                    {"id": 9001, "left": [[900, 11], [910, 11]], "center": [[900, 10], [910, 10]],
+                     "right": [[900, 9], [910, 9]]}))
+            self.faults["F-midbatch"] += 1
+            r = self._try("remove_lanelet[scenario,list with a foreign lanelet]", lambda: self.sc.remove_lanelet(lst))
+            if self.sc.lanelet_network.find_lanelet_by_id(op["id"]) is not None:
+                self._after([("network", None)])
+                return r
+        elif op["level"] == "scenario":
             la = self.sc.lanelet_network.find_lanelet_by_id(op["id"])
             r = self._try("remove_lanelet[scenario]", lambda: self.sc.remove_lanelet(la))
         else:
@@ -985,7 +1009,8 @@ def _mutator(rng, run, cfg):
             yield {"op": k, "keys": rng.sample(c, rng.randint(2, len(c)))} if len(c) >= 2 else None
         elif k == "remove_lanelet" and net:
             i = rng.pick(net)
-            yield {"op": k, "id": i, "level": "scenario" if i in run.via_scenario else "network"}
+            yield {"op": k, "id": i, "level": "scenario" if i in run.via_scenario else "network",
+                   "intruder": rng.choice([None, None, "after", "before", "middle", "middle"])}
         elif k in ("set_cycle", "set_offset", "replace_cycle"):
             lts = sorted(l.traffic_light_id for l in run.sc.lanelet_network.traffic_lights
                          if l.traffic_light_cycle is not None)
